@@ -1104,6 +1104,7 @@ func (p *pipe) Do(ctx context.Context, cmd Completed) (resp RedisResult) {
 		}
 	}
 	waits := p.incrWaits() // if this is 1, and the background worker is not started, no need to queue
+	verifPoint("pipe.do.registered", p, waits)
 	state := atomic.LoadInt32(&p.state)
 
 	if state == 1 {
@@ -1215,6 +1216,7 @@ func (p *pipe) DoMulti(ctx context.Context, multi ...Completed) *redisresults {
 	}
 
 	waits := p.incrWaits() // if this is 1, and the background worker is not started, no need to queue
+	verifPoint("pipe.do.registered", p, waits)
 	state := atomic.LoadInt32(&p.state)
 
 	if state == 1 {
@@ -1908,6 +1910,7 @@ func (p *pipe) Close() {
 	waits := p.incrWaits()
 	stopping1 := atomic.CompareAndSwapInt32(&p.state, 0, 2)
 	stopping2 := atomic.CompareAndSwapInt32(&p.state, 1, 2)
+	verifPoint("pipe.close.swapped", p, stopping1, stopping2)
 	if p.queue != nil {
 		if stopping1 && waits == 1 { // make sure there is no sync read
 			p.background()
